@@ -34,6 +34,9 @@ HAVE_IPV6 = _have_ipv6()
 CMDS = [("num-running", "0"), ("is-locked", "False"), ("pool-size", "inf"), ("num-ended", "0"), ("is-full", "False")]
 
 
+SERVER_KWARGS = [{"start_serving": False}, {"start_serving": True}, {"backlog": 1}, {"backlog": 7, "start_serving": False}, {"limit": 2 ** 12}]
+
+
 def decode(data: bytes) -> dict:
     d = D(data)
     case: Dict[str, Any] = {"transport": d.pick(["tcp", "unix"]), "n": d.pick([0, 1, 1, 2, 2, 3]), "events": []}
@@ -61,6 +64,9 @@ def decode(data: bytes) -> dict:
     case["restart_early"] = d.p(0.15)
     if case["transport"] == "tcp" and d.p(0.25):
         case["host"] = "::1"          # TCP over the IPv6 loopback (peer names are 4-tuples there)
+    if d.p(0.3):
+        # keyword arguments the server passes through to asyncio.start_server / start_unix_server
+        case["kwargs"] = d.pick(SERVER_KWARGS)
     return case
 
 
@@ -75,8 +81,8 @@ class Client:
 class C19Engine(Engine):
     pid = "C19"
     counter = 0
-    rule = ("cases: transport in {tcp, unix} x 0..3 raw stream clients (+ the bundled CLI client as a subprocess in a few cases) x generated "
-            "orders of connect (with / without handshake) / command / disconnect (close, EOF, abort) x position of the stop (cancel of the "
+    rule = ("cases: transport in {tcp, unix} x 0..3 raw stream clients (+ the bundled CLI client as a subprocess in a few cases) x server keyword arguments (none, "
+            "start_serving, backlog, limit) x generated orders of connect (with / without handshake) / command / disconnect (close, EOF, abort) x position of the stop (cancel of the "
             "serving task). Oracle: serve_forever() returns a task within the bound; handshake reply is the pool name; commands are answered "
             "while other clients are connected; a disconnect changes neither the pool nor other sessions; after the cancel and once all "
             "clients are gone the serving task completes, is_serving() is false, new connections fail, the unix socket file is gone; the CLI "
@@ -108,10 +114,16 @@ class C19Engine(Engine):
             del c["events"][i]
             c["stop_at"] = min(c["stop_at"], len(c["events"]))
             out.append(c)
-        if case.get("cli"):
-            c = copy.deepcopy(case)
-            c["cli"] = False
-            out.append(c)
+        for key in ("cli", "dual", "restart", "restart_early"):
+            if case.get(key):
+                c = copy.deepcopy(case)
+                c[key] = False
+                out.append(c)
+        for key in ("kwargs", "host"):
+            if key in case:
+                c = copy.deepcopy(case)
+                del c[key]
+                out.append(c)
         return out
 
     def run_case(self, case: dict) -> dict:
@@ -136,14 +148,17 @@ class C19Engine(Engine):
             pool = TaskPool(name=pname)
             full = ("TaskPool-" + pname).encode()
             labels.add("transport:" + case["transport"])
+            skw = dict(case.get("kwargs") or {})
+            if skw:
+                labels.add("server-kwargs:" + ",".join(sorted(skw)))
             if case["transport"] == "tcp":
                 host = case.get("host", "127.0.0.1")
                 if host == "::1" and not HAVE_IPV6:
                     host = "127.0.0.1"
-                server: Any = TCPControlServer(pool, host=host, port=0)
+                server: Any = TCPControlServer(pool, host=host, port=0, **skw)
                 labels.add("tcp-host:" + host)
             else:
-                server = UnixControlServer(pool, socket_path=path)
+                server = UnixControlServer(pool, socket_path=path, **skw)
             try:
                 task = await asyncio.wait_for(server.serve_forever(), BOUND)
             except asyncio.TimeoutError:
